@@ -5,8 +5,11 @@
    a budget-vs-weight comparison is left undecided ONLY when |remaining_budget - weight| <= 2 units. *)
 EXTENDS Knapsack, TraceKit
 
-St(s) == [weights |-> s.weights, values |-> s.values, packed_items |-> s.packed_items,
-          remaining_budget |-> s.remaining_budget]
+St(s) == IF "fits" \in DOMAIN s
+         THEN [weights |-> s.weights, values |-> s.values, packed_items |-> s.packed_items,
+               remaining_budget |-> s.remaining_budget, fits |-> s.fits]       \* the exact float32 comparisons (Knapsack.tla)
+         ELSE [weights |-> s.weights, values |-> s.values, packed_items |-> s.packed_items,
+               remaining_budget |-> s.remaining_budget]
 Rq(e) == e.ts.reward.q[1]
 IsLast(e) == e.ts.type = LAST
 EnvMask(i) == PreTs(i).obs.action_mask          \* the mask the implementation showed the agent
